@@ -24,6 +24,7 @@ def check(ctx):
     sched_rel.check_rel(ctx, {'REL-1', 'REL-2', 'REL-5'})
     sched_worker.check_pub(ctx)
     persist.check_merge_done(ctx)
+    sched_rel.check_topo(ctx)
 
 
 from ..variants import sched as _v   # noqa: E402
